@@ -174,6 +174,7 @@ Side == [
 
 RP(o, n, nick) == [kind |-> "RegisterProducer", owner |-> o, node |-> n, nick |-> nick]
 UP(o, n, nick) == [kind |-> "UpdateProducer", owner |-> o, node |-> n, nick |-> nick]
+CP(o) == [kind |-> "CancelProducer", owner |-> o, regnode |-> Registered[o]]   \* regnode: for the replay's chain setup
 RCR(ver, script, key, cid, nick) == [kind |-> "RegisterCR", ver |-> ver, script |-> script, key |-> key, cid |-> cid, nick |-> nick]
 Dpos == [
   RP_K1_N1_nA |-> RP("K1", "N1", "nickA"),
@@ -186,8 +187,8 @@ Dpos == [
   UP_K0_N0_nG |-> UP("K0", "N0", "nickG"),
   UP_K1_N7_nH |-> UP("K1", "N7", "nickH"),
   UP_K8_N8_nB |-> UP("K8", "N8", "nickB"),
-  CP_K0       |-> [kind |-> "CancelProducer", owner |-> "K0"],
-  CP_K9       |-> [kind |-> "CancelProducer", owner |-> "K9"],
+  CP_K0       |-> CP("K0"),
+  CP_K9       |-> CP("K9"),
   AP_N0       |-> [kind |-> "ActivateProducer", node |-> "N0"],
   AP_N1       |-> [kind |-> "ActivateProducer", node |-> "N1"],
   RCR_K1      |-> RCR(0, "std", "K1", "c1", "crA"),
